@@ -171,7 +171,189 @@ def check_switch_routes(repo, scratch):
     return res
 
 
-CHECKS = {"cmp_instrs": check_cmp_instrs, "switch_routes": check_switch_routes}
+def _norm(s):
+    return s.replace(": :", "::").replace("= >", "=>").replace("+ =", "+=")
+
+
+def _kernel_call(text_, kernels):
+    """first call `kernel ( ... )` of a known kernel in a normalised token string; returns (kernel, args string)"""
+    best = None
+    for k in kernels:
+        for m in re.finditer(r"(?<![\w.:])%s \(" % re.escape(k), text_):
+            # balanced argument list
+            i = m.end()
+            d = 1
+            j = i
+            toks = text_[i:].split(" ")
+            out = []
+            for t in toks:
+                if t in ("(", "[", "{"):
+                    d += 1
+                elif t in (")", "]", "}"):
+                    d -= 1
+                    if d == 0:
+                        break
+                out.append(t)
+            cand = (m.start(), k, " ".join(out).strip())
+            if best is None or cand[0] < best[0]:
+                best = cand
+    return (best[1], best[2]) if best else (None, None)
+
+
+def _canon_args(a):
+    a = re.sub(r"\b(n1|a1|r1)\b", "X1", a)
+    a = re.sub(r"\b(n2|a2|r2)\b", "X2", a)
+    a = re.sub(r"\bn\b", "X1", a)
+    a = re.sub(r"atom ! \( \"[^\"]*\" \)", "ATOM", a)       # the culprit functor only affects the error context
+    return a
+
+
+def check_arith_tables(repo, scratch):
+    """C03: the compiled evaluator (get_*_instr -> Instruction -> *_instr) and the run-time evaluator
+    (arith_eval_by_metacall) call the same kernel with the same operand order for every evaluable functor."""
+    base = "structural::arith_tables::"
+    res = {"obligations": [], "failed": [], "undecided": [], "assumptions": [
+        "[structural:arith_tables] operand fetch (get_number/get_rational), try_or_throw*/drop_iter_on_err! plumbing and result storing are taken at face value; the kernels themselves are under contract in unit arith (C01/C02)",
+        "[structural:arith_tables] the culprit atom passed to pow (`**` vs `is`) is ignored: it only changes the error context, not the formal error term"],
+        "functions": [{"name": "ArithmeticEvaluator::get_unary_instr / get_binary_instr / push_literal", "file": "src/arithmetic.rs", "engine": "structural", "unit": "arith_tables", "under_contract": True},
+                      {"name": "Machine dispatch arms for arithmetic instructions and MachineState::*_instr", "file": "src/machine/dispatch.rs", "engine": "structural", "unit": "arith_tables", "under_contract": True},
+                      {"name": "MachineState::arith_eval_by_metacall", "file": "src/machine/arithmetic_ops.rs", "engine": "structural", "unit": "arith_tables", "under_contract": True}]}
+    ar = os.path.join(repo, "src/arithmetic.rs"); dp = os.path.join(repo, "src/machine/dispatch.rs"); ops = os.path.join(repo, "src/machine/arithmetic_ops.rs")
+    for p in (ar, dp, ops):
+        if not os.path.exists(p):
+            res["undecided"].append(base + ": %s missing" % p); return res
+    from rustlex import find_fns
+    # (a) functor -> Instruction variant
+    table_a = {}
+    for fn, arity in (("get_unary_instr", 1), ("get_binary_instr", 2)):
+        t = _fn_text(repo, "src/arithmetic.rs", fn)
+        if t is None:
+            res["undecided"].append(base + ": %s not found" % fn); return res
+        for m in re.finditer(r'atom ! \( "((?:[^"\\]|\\.)*)" \) => Ok \( Instruction :: (\w+) \( ([\w , ]+) \) \)', t):
+            args = [x.strip() for x in m.group(3).split(",")]
+            want = ["a1", "t"] if arity == 1 else ["a1", "a2", "t"]
+            table_a[(m.group(1), arity)] = (m.group(2), args == want)
+    # (b) Instruction variant -> *_instr method (dispatch arms)
+    dtoks = lex(open(dp, encoding="utf-8").read())
+    dtext = _norm(" ".join(t.text for t in _sig(dtoks)))
+    # (d) run-time table
+    rt = _fn_text(repo, "src/machine/arithmetic_ops.rs", "arith_eval_by_metacall")
+    if rt is None:
+        res["undecided"].append(base + ": arith_eval_by_metacall not found"); return res
+    # split the run-time function into its arity-2 and arity-1 sections
+    i2 = rt.find("if arity = = 2"); i1 = rt.find("else if arity = = 1"); i0 = rt.find("else if arity = = 0")
+    if min(i2, i1, i0) < 0 or not (i2 < i1 < i0):
+        res["undecided"].append(base + ": arith_eval_by_metacall sections not recognised"); return res
+    sect = {2: rt[i2:i1], 1: rt[i1:i0]}
+    rt_arms = {}
+    for ar_, tx in sect.items():
+        parts = re.split(r'atom ! \( "((?:[^"\\]|\\.)*)" \) =>', tx)
+        for k in range(1, len(parts) - 1, 2):
+            rt_arms[(parts[k], ar_)] = parts[k + 1]
+    kernels = ["add", "sub", "mul", "div", "pow", "int_pow", "max", "min", "rdiv", "idiv", "int_floor_div", "shr", "shl", "and", "or", "xor", "modulus", "remainder",
+               "atan2", "gcd", "neg", "cos", "sin", "tan", "float_fractional_part", "float_integer_part", "sqrt", "log", "exp", "acos", "asin", "atan", "abs", "float",
+               "truncate", "round", "ceiling", "floor", "bitwise_complement"]
+    for key in sorted(set(table_a) | set(rt_arms)):
+        name, arity = key
+        ob = base + "%s/%d" % (name, arity)
+        res["obligations"].append(ob)
+        if key not in table_a or key not in rt_arms:
+            res["failed"].append({"obligation": ob, "engine": "structural", "source": name, "at": "src/arithmetic.rs / src/machine/arithmetic_ops.rs",
+                                  "message": "evaluable functor %s/%d is known to only one of the two evaluators (compiled: %s, run-time: %s)" % (name, arity, key in table_a, key in rt_arms)})
+            continue
+        variant, order_ok = table_a[key]
+        if not order_ok:
+            res["failed"].append({"obligation": ob, "engine": "structural", "source": name, "at": "src/arithmetic.rs", "message": "get_*_instr passes the operands of %s/%d in a different order" % key}); continue
+        m = re.search(r"& Instruction :: %s \( ref a1 , (ref a2 , )?t \) => (?:\{ )?self \. machine_st \. (\w+) \( a1 , (a2 , )?t \)" % variant, dtext)
+        if not m or bool(m.group(1)) != (arity == 2) or bool(m.group(3)) != (arity == 2):
+            res["undecided"].append(ob + ": dispatch arm for Instruction::%s not recognised" % variant); continue
+        body = _fn_text(repo, "src/machine/dispatch.rs", m.group(2))
+        if body is None:
+            res["undecided"].append(ob + ": %s not found" % m.group(2)); continue
+        if not re.search(r"let (n1|r1|n) = try_or_throw ! \( self , self \. get_(number|rational) \( a1", body) or (arity == 2 and not re.search(r"let (n2|r2) = try_or_throw ! \( self , self \. get_(number|rational) \( a2", body)):
+            res["failed"].append({"obligation": ob, "engine": "structural", "source": m.group(2), "at": "src/machine/dispatch.rs", "message": "%s does not fetch its operands from (a1, a2) in order" % m.group(2)}); continue
+        arm = rt_arms[key]
+        if name == "+" and arity == 1:
+            ok = "interms . push ( a1 )" in arm and "HeapCellValue :: from ( ( n1 ," in body
+            if not ok:
+                res["failed"].append({"obligation": ob, "engine": "structural", "source": name, "at": "dispatch.rs / arithmetic_ops.rs", "message": "unary plus is not the identity on both paths"})
+            continue
+        if name == "sign" and arity == 1:
+            ok = "a1 . sign ( )" in arm and re.search(r"\bn \. sign \( \)|n1 \. sign \( \)", body)
+            if not ok:
+                res["failed"].append({"obligation": ob, "engine": "structural", "source": name, "at": "dispatch.rs / arithmetic_ops.rs", "message": "sign/1 does not call Number::sign on both paths"})
+            continue
+        k1, a1_ = _kernel_call(body, kernels)
+        k2, a2_ = _kernel_call(arm, kernels)
+        if k1 is None or k2 is None:
+            res["undecided"].append(ob + ": kernel call not recognised (compiled: %s, run-time: %s)" % (k1, k2)); continue
+        if k1 != k2 or _canon_args(a1_) != _canon_args(a2_):
+            res["failed"].append({"obligation": ob, "engine": "structural", "source": name, "at": "src/machine/dispatch.rs / src/machine/arithmetic_ops.rs",
+                                  "message": "the two evaluators disagree for %s/%d: compiled path calls %s(%s), run-time path calls %s(%s)" % (name, arity, k1, a1_, k2, a2_)})
+            continue
+        # same result wrapping: Float(OrderedFloat(..)) on both or on neither
+        w1 = "Number :: Float ( OrderedFloat (" in body
+        w2 = "Number :: Float ( OrderedFloat (" in arm
+        if w1 != w2:
+            res["failed"].append({"obligation": ob, "engine": "structural", "source": name, "at": "dispatch.rs / arithmetic_ops.rs", "message": "result wrapping differs (Float(OrderedFloat(..)) on one path only)"})
+    # (e) constants
+    pl = _fn_text(repo, "src/arithmetic.rs", "push_literal")
+    for cname, cexpr in (("pi", "PI"), ("e", "E"), ("epsilon", "EPSILON")):
+        ob = base + "%s/0" % cname
+        res["obligations"].append(ob)
+        a_ok = pl is not None and re.search(r'atom ! \( "%s" \) => interm \. push \( ArithmeticTerm :: Number \( Number :: Float \( OrderedFloat \( (std :: )?f64 :: (consts :: )?%s' % (cname, cexpr), pl)
+        b_ok = re.search(r'atom ! \( "%s" \) => \{ interms \. push \( Number :: Float \( OrderedFloat \( f64 :: (consts :: )?%s' % (cname, cexpr), rt)
+        if not a_ok or not b_ok:
+            if (pl and ('"%s"' % cname) in pl) and ('"%s"' % cname) in rt:
+                res["failed"].append({"obligation": ob, "engine": "structural", "source": cname, "at": "src/arithmetic.rs / arithmetic_ops.rs", "message": "constant %s is not the same f64 constant on both paths" % cname})
+            else:
+                res["undecided"].append(ob + ": constant arm not recognised")
+    return res
+
+
+def check_atom_guards(repo, scratch):
+    """C21: the run-time interner and the build-time indexer decide 'inline or table' with the same guard
+    and the same length limit (token-identical text)."""
+    base = "structural::atom_guards::"
+    res = {"obligations": [base + "same_guard", base + "same_max_len"], "failed": [], "undecided": [], "assumptions": [],
+           "functions": [{"name": "AtomTable::build_with (guard)", "file": "src/atom_table.rs", "engine": "structural", "unit": "atom_guards", "under_contract": True},
+                         {"name": "static_string_index (guard)", "file": "build/static_string_indexing.rs", "engine": "structural", "unit": "atom_guards", "under_contract": True}]}
+    from rustlex import find_fns, find_blocks
+    pa, pb = os.path.join(repo, "src/atom_table.rs"), os.path.join(repo, "build/static_string_indexing.rs")
+    if not (os.path.exists(pa) and os.path.exists(pb)):
+        res["undecided"].append(base + ": source files missing"); return res
+    sa, sb = open(pa, encoding="utf-8").read(), open(pb, encoding="utf-8").read()
+    ta = lex(sa)
+    blocks = find_blocks(ta, "impl", r"impl AtomTable")
+    ga = None
+    for b in blocks:
+        for it in find_fns(ta, "build_with", b.body_open, b.body_close):
+            t = _norm(" ".join(x.text for x in _sig(ta[it.body_open:it.body_close + 1])))
+            m = re.search(r"\{ if (.*?) \{ return Atom :: new_inlined \( string \) ; \}", t)
+            if m:
+                ga = m.group(1)
+    tb = _fn_text(repo, "build/static_string_indexing.rs", "static_string_index")
+    gb = None
+    if tb:
+        m = re.search(r"\{ if (.*?) \{ let mut string_buf", tb)
+        if m:
+            gb = m.group(1)
+    if ga is None or gb is None:
+        res["undecided"].append(base + "same_guard: guard expression not recognised (lost anchor)")
+    elif ga != gb:
+        res["failed"].append({"obligation": base + "same_guard", "engine": "structural", "source": "AtomTable::build_with / static_string_index", "at": "src/atom_table.rs, build/static_string_indexing.rs",
+                              "message": "inline-atom guards differ: run time `%s`, build time `%s`" % (ga, gb)})
+    ma = re.search(r"const\s+INLINED_ATOM_MAX_LEN\s*:\s*usize\s*=\s*(\d+)\s*;", sa)
+    mb = re.search(r"const\s+INLINED_ATOM_MAX_LEN\s*:\s*usize\s*=\s*(\d+)\s*;", sb)
+    if not (ma and mb):
+        res["undecided"].append(base + "same_max_len: constant not found (lost anchor)")
+    elif ma.group(1) != mb.group(1):
+        res["failed"].append({"obligation": base + "same_max_len", "engine": "structural", "source": "INLINED_ATOM_MAX_LEN", "at": "src/atom_table.rs, build/static_string_indexing.rs",
+                              "message": "INLINED_ATOM_MAX_LEN is %s at run time and %s at build time" % (ma.group(1), mb.group(1))})
+    return res
+
+
+CHECKS = {"atom_guards": check_atom_guards, "cmp_instrs": check_cmp_instrs, "switch_routes": check_switch_routes, "arith_tables": check_arith_tables}
 
 
 def run(names, repo, scratch=None):
